@@ -7,6 +7,7 @@ import (
 	"go/constant"
 	"go/token"
 	"go/types"
+	"os"
 	"regexp"
 	"sort"
 	"strings"
@@ -47,7 +48,7 @@ var c09PanicExceptions = map[string]string{
 var c09IndexExceptions = map[string]string{}
 
 func checkC09(w *World, r *Report) {
-	r.Explanation = "Structural clause of C09: over every module function reachable (repaired VTA call graph) from CheckTx, DeliverTx and Query — and from BeginBlock and EndBlock, which later process what accepted transactions stored —, (P-1) no explicit panic, always-panicking callee or Must* helper is reachable except a listed construct with its invariant; (P-2) every payload type assertion without comma-ok sits where the set of possible transaction types (dataflow over the tx-type tests, interprocedural) maps only to the payload type that Trx.fromProto allocates; (P-3) every slice/index expression on a slice whose bounds are not compile-time safe has a dominating length guard or clamp idiom; (P-4) results of module functions that return nil together with an error / may return nil are not dereferenced where the error is known non-nil or without a nil test; (P-5) every integer division by a non-constant has a dominating non-zero guard or a listed invariant; (P-7) every string stored in a ledger item (protobuf `string` fields must be valid UTF-8 or the encoder fails and Commit halts the node) originates from constants, fields or transaction text handed on unchanged — not from a conversion of bytes or a library routine that can yield arbitrary bytes; (P-6) every pointer-typed field of Trx / a payload type that the input paths dereference without a nil test is set non-nil on every success path of every function on the input paths that allocates such an object (directly or through a decoder call that establishes it, interprocedurally); (P-8) a pointer-typed controller field that start-up (constructor, and Info for the application) leaves nil and block execution creates is not dereferenced, without a nil test of the field, at a point that can run in a CheckTx or Query context (such a request can arrive after a restart and before the first BeginBlock)."
+	r.Explanation = "Structural clause of C09: over every module function reachable (repaired VTA call graph) from CheckTx, DeliverTx and Query — and from BeginBlock and EndBlock, which later process what accepted transactions stored —, (P-1) no explicit panic, always-panicking callee or Must* helper is reachable except a listed construct with its invariant; (P-2) every payload type assertion without comma-ok sits where the set of possible transaction types (dataflow over the tx-type tests, interprocedural) maps only to the payload type that Trx.fromProto allocates; (P-3) every slice/index expression on a slice whose bounds are not compile-time safe has a dominating length guard or clamp idiom; (P-4) results of module functions that return nil together with an error / may return nil are not dereferenced where the error is known non-nil or without a nil test; (P-5) every integer division by a non-constant has a dominating non-zero guard or a listed invariant; (P-7) every string stored in a ledger item (protobuf `string` fields must be valid UTF-8 or the encoder fails and Commit halts the node) originates from constants, fields or transaction text handed on unchanged — not from a conversion of bytes or a library routine that can yield arbitrary bytes; (P-6) every pointer-typed field of Trx / a payload type that the input paths dereference without a nil test is set non-nil on every success path of every function on the input paths that allocates such an object (directly or through a decoder call that establishes it, interprocedurally); (P-8) a pointer-typed controller field that start-up (constructor, and Info for the application) leaves nil and block execution creates is not dereferenced, without a nil test of the field, at a point that can run in a CheckTx or Query context (such a request can arrive after a restart and before the first BeginBlock); (P-9) an object filled by decoding request-supplied JSON may have any pointer field nil: what a getter hands back unchanged from such a field is not used as an operand before a nil test (until the object is handed to a module function, which may complete it)."
 	r.NotCovered = "whether an error a controller returns from BeginBlock/EndBlock (which RigoApp turns into a deliberate fail-stop panic) can be provoked by stored transaction data; panics inside dependencies on hostile input (protobuf, rlp, iavl, go-ethereum, tendermint rpc core used by vm_call); resource exhaustion; nil dereferences of struct fields other than those of the decoded request objects (P-6) that are nil by construction rather than by a returned nil; guards whose removal cannot cause a panic (address/hash length checks: every consumer clamps) are deliberately not obligations."
 
 	roots := w.entrySet("CheckTx", "DeliverTx", "Query", "BeginBlock", "EndBlock")
@@ -70,7 +71,9 @@ func checkC09(w *World, r *Report) {
 	p6(w, r, reach, scope)
 	p7(w, r, scope)
 	p8(w, r)
+	p9(w, r, scope)
 
+	r.Floor("P-9", 1, "objects decoded from request JSON on the input paths")
 	r.Floor("P-1", 2, "explicit panics / Must* on the input paths, each with its exception")
 	r.Floor("P-2", 3, "payload assertions without comma-ok")
 	r.Floor("P-3", 8, "slice/index sites on input-derived slices")
@@ -669,7 +672,8 @@ func p2(w *World, r *Report, reach *Reach, scope []*ssa.Function) {
 	}
 	hasCtx := func(fn *ssa.Function) bool {
 		for _, p := range fn.Params {
-			if strings.HasSuffix(typeStr(p.Type()), "types.TrxContext") {
+			// the context, or the transaction itself handed to a helper
+			if ts := typeStr(p.Type()); strings.HasSuffix(ts, "types.TrxContext") || strings.HasSuffix(ts, "types.Trx") {
 				return true
 			}
 		}
@@ -1490,12 +1494,23 @@ func p4(w *World, r *Report, reach *Reach, scope []*ssa.Function) {
 					fkey := name + ":field-nil-guard:" + w.Canon(fa)
 					// the callee returns nil only together with an error, and the store is
 					// reached only on the edge where that error is nil
+					if os.Getenv("RIGOCHECK_DEBUG") == "p4f" {
+						var ns []string
+						for _, cal := range callees {
+							ns = append(ns, w.FName(cal)+fmt.Sprint(w.nilOnlyWithErr([]*ssa.Function{cal})))
+						}
+						fmt.Fprintln(os.Stderr, "P4F", fkey, "errV", errV != nil, ns)
+					}
 					if errV != nil && w.nilOnlyWithErr(callees) {
 						protected := false
 						for _, g := range w.Guards(fn) {
 							if bo, isB := g.If.Cond.(*ssa.BinOp); isB && (sameValue(bo.X, errV) || sameValue(bo.Y, errV)) && g.Protects(st.Block()) {
 								protected = true
 							}
+						}
+						// or on the nil edge of a plain test of that error (`if err == nil { return &T{V: v}, nil }`)
+						if !protected && w.nilTestAt(errV, st.Block()) == -1 {
+							protected = true
 						}
 						if protected {
 							r.OK("P-4", fkey, "the value is stored only where the callee's error is nil, and the callee returns nil only together with an error", site(w, st))
@@ -1719,6 +1734,22 @@ func (w *World) nilOnlyWithErr(callees []*ssa.Function) bool {
 				continue
 			}
 			if w.valueMayBeNil(retResult(ret, 0), ret.Block(), map[*ssa.Function]bool{fn: true}, 0) {
+				// the value of an inner call handed on where that call's error was found nil is
+				// as good as the inner callee (`if item, err := l.read(k); err != nil {…} else { return item, nil }`)
+				if ex, isE := stripConv(retResult(ret, 0)).(*ssa.Extract); isE && ex.Index == 0 && w.nilOnlyDepth < 3 {
+					if ic, isC := ex.Tuple.(*ssa.Call); isC {
+						if tup, isT := ic.Type().(*types.Tuple); isT && tup.Len() > 1 && isErrorType(tup.At(tup.Len()-1).Type()) {
+							if ie := extractOf(ic, tup.Len()-1); ie != nil && w.nilTestAt(ie, ret.Block()) == -1 {
+								w.nilOnlyDepth++
+								inner := w.nilOnlyWithErr(w.Callees(ic))
+								w.nilOnlyDepth--
+								if inner {
+									continue
+								}
+							}
+						}
+					}
+				}
 				if st := w.errState(ret); st == triNil {
 					return false
 				}
@@ -2057,5 +2088,131 @@ func p7(w *World, r *Report, scope []*ssa.Function) {
 	}
 	if n == 0 {
 		r.Undecided("P-7", "text", "no store to a string field of a ledger item found on the input paths")
+	}
+}
+
+// ---- P-9 : partially decoded parameter objects
+//
+// A struct filled by json.Unmarshal from bytes a transaction supplied has every
+// pointer field nil that the text left out (governance options may carry any
+// subset of the parameters; MergeGovParams exists for that). A getter of that
+// type that hands such a field back unchanged can therefore return nil, and
+// handing that result to an operation (as receiver or argument of a call) without
+// a nil test is a nil dereference the sender controls. The object stops being
+// "partial" for this rule once it has been handed to a module function (which may
+// fill it in).
+func p9(w *World, r *Report, scope []*ssa.Function) {
+	nilable := map[*ssa.Function]bool{}
+	isNilableGetter := func(g *ssa.Function) bool {
+		if v, ok := nilable[g]; ok {
+			return v
+		}
+		res := false
+		if g != nil && g.Blocks != nil && g.Signature.Recv() != nil && len(g.Params) == 1 && g.Signature.Results().Len() == 1 {
+			if _, isPtr := g.Signature.Results().At(0).Type().Underlying().(*types.Pointer); isPtr {
+				for _, b := range g.Blocks {
+					ret, isR := lastInstr(b).(*ssa.Return)
+					if !isR || b == g.Recover {
+						continue
+					}
+					ld, isLd := retResult(ret, 0).(*ssa.UnOp)
+					if !isLd || ld.Op != token.MUL {
+						continue
+					}
+					fa, isFA := ld.X.(*ssa.FieldAddr)
+					if !isFA || fa.X != ssa.Value(g.Params[0]) {
+						continue
+					}
+					// handed back as it is, unless this return is behind a non-nil test of the field
+					guarded := false
+					for _, b2 := range g.Blocks {
+						ifi, ok := lastInstr(b2).(*ssa.If)
+						if !ok {
+							continue
+						}
+						bo, ok := ifi.Cond.(*ssa.BinOp)
+						if !ok || (bo.Op != token.EQL && bo.Op != token.NEQ) {
+							continue
+						}
+						for _, pr := range [][2]ssa.Value{{bo.X, bo.Y}, {bo.Y, bo.X}} {
+							c, isC := pr[1].(*ssa.Const)
+							if !isC || !c.IsNil() || w.Canon(pr[0]) != w.Canon(ld) {
+								continue
+							}
+							if e := condEdge(ifi, b); e != 0 && ((e == 1) == (bo.Op == token.NEQ)) {
+								guarded = true
+							}
+						}
+					}
+					if !guarded {
+						res = true
+					}
+				}
+			}
+		}
+		nilable[g] = res
+		return res
+	}
+	for _, fn := range scope {
+		for _, c := range CallsIn(fn) {
+			if !isAnyJSON(c.Common(), "Unmarshal") || len(c.Common().Args) != 2 {
+				continue
+			}
+			tgt := ifaceOperand(c.Common().Args[1])
+			n, _ := types.Unalias(deref(tgt.Type())).(*types.Named)
+			if n == nil || n.Obj().Pkg() == nil || !w.InModulePkg(n.Obj().Pkg().Path()) {
+				continue
+			}
+			if _, isS := n.Underlying().(*types.Struct); !isS {
+				continue
+			}
+			key := "partial-object:" + w.FName(fn) + ":" + n.Obj().Name()
+			bad := ""
+			nUse := 0
+			if refs := tgt.Referrers(); refs != nil {
+				// calls that may complete the object
+				var completers []ssa.Instruction
+				for _, ref := range *refs {
+					ci, isC := ref.(ssa.CallInstruction)
+					if !isC || ci == c {
+						continue
+					}
+					cal := ci.Common().StaticCallee()
+					if cal != nil && w.InModule(cal) && !(cal.Signature.Recv() != nil && len(ci.Common().Args) > 0 && ci.Common().Args[0] == tgt && isNilableGetter(cal)) && cal.Signature.Recv() == nil {
+						completers = append(completers, ci)
+					}
+				}
+				for _, ref := range *refs {
+					ci, isC := ref.(*ssa.Call)
+					if !isC {
+						continue
+					}
+					cal := ci.Common().StaticCallee()
+					if cal == nil || len(ci.Common().Args) == 0 || ci.Common().Args[0] != tgt || !isNilableGetter(cal) || !instrReaches(c, ci) {
+						continue
+					}
+					done := false
+					for _, k := range completers {
+						if instrDominates(k, ci) {
+							done = true
+						}
+					}
+					if done || ci.Referrers() == nil {
+						continue
+					}
+					for _, use := range *ci.Referrers() {
+						uc, isUC := use.(ssa.CallInstruction)
+						if !isUC {
+							continue
+						}
+						nUse++
+						if w.nilTestAt(ci, use.Block()) != 1 {
+							bad = fmt.Sprintf("%s() at %s is handed to %s without a nil test", cal.Name(), site(w, ci), callName(uc.Common()))
+						}
+					}
+				}
+			}
+			r.Check(bad == "", "P-9", key, fmt.Sprintf("what getters hand back from the possibly incomplete object is tested before use (%d use(s))", nUse), "a field the request may have left out is used unchecked: "+bad+" (a partial parameter set is a supported input shape, so the sender decides whether this is nil)", site(w, c))
+		}
 	}
 }
